@@ -29,11 +29,17 @@
        names, so Name.name differs from the text at Name.line/column (known finding).
      DEV-NoFinalNewline: a buffer without final line terminator has no newline leaf and the
        last simple_stmt collapses into its child (ranges end at the last token).
-     (A form feed at line start makes parso emit a spurious INDENT error leaf; it carries no
-      name and moves no position, so it is not modelled.)                                *)
+     DEV-FormFeedIndent: parso's tokenizer counts a form feed at line start as one column of
+       indentation (CPython ignores it).  Usually this only adds a spurious INDENT error leaf
+       (no name, no position moves).  But a compound statement whose suite is indented by a
+       single tab (also column 1) is then not recognised: error nodes, and none of the header's
+       names is a definition (known finding).  Such buffers are marked out.modelled = FALSE:
+       the Design makes no prediction, the invariants skip them, and the real code is judged
+       on them by the Reference alone (Trace_Positions).                                  *)
 EXTENDS Naturals, Sequences, FiniteSets, TLC, Json
 
 CONSTANTS TplLo, TplHi,  \* templates allowed for the first statement (partition for parallel emission)
+          SecondTpls,    \* templates allowed for the statements after the first
           MaxStmts,      \* statements per buffer
           MaxMods1,      \* layout modifications allowed in a 1-statement buffer
           MaxMods2,      \* ... in a longer buffer
@@ -431,6 +437,7 @@ DefaultSep(t, j) == IF FirstOfLine(t, j) THEN "none"
                     ELSE IF Tpl[t][j].k # "nl" /\ Tpl[t][j].gc = "auto" /\ Required(t, j) THEN "sp1" ELSE "none"
 GapT == Explicit([t \in 1..NT |-> Explicit([j \in 1..Len(Tpl[t]) |-> [allowed |-> Allowed(t, j), def |-> DefaultSep(t, j)]])])
 HasIndent(t) == \E j \in 1..Len(Tpl[t]) : Tpl[t][j].ind > 0
+FFBreaks(t)  == HasIndent(t) /\ Tpl[t][1].s # oAt        \* DEV-FormFeedIndent (a decorator line in front absorbs it)
 
 SepText(sep, eol, innl) ==
   CASE sep = "none" -> <<>>   [] sep = "sp1" -> <<SP>>   [] sep = "sp2" -> <<SP, SP>>   [] sep = "tab" -> <<TAB>>
@@ -496,7 +503,7 @@ InsertByPos(sorted, r) ==
 RECURSIVE SortByPos(_)
 SortByPos(rs) == IF rs = <<>> THEN <<>> ELSE InsertByPos(SortByPos(Tail(rs)), Head(rs))
 
-DesignOut(st, fin, L) ==
+DesignOut(st, tb, fin, L) ==
   LET lines == DSplitLines(L.text)
       info(g) == Tpl[st[L.leaves[g][1]].tpl][L.leaves[g][2]]
       base(g) == g - L.leaves[g][2]                \* global index of the statement's leaf 0
@@ -527,7 +534,8 @@ DesignOut(st, fin, L) ==
       RECURSIVE From(_)
       From(g) == IF g > Len(L.leaves) THEN <<>>
                  ELSE (IF info(g).k = "id" THEN <<rec(g)>> ELSE <<>>) \o From(g + 1)
-  IN [names |-> SortByPos(From(1)), lines |-> lines]          \* Script._names: sorted by start_pos
+  IN [names |-> SortByPos(From(1)), lines |-> lines,          \* Script._names: sorted by start_pos
+      modelled |-> ~\E i \in 1..Len(st) : st[i].ff /\ tb /\ FFBreaks(st[i].tpl)]   \* DEV-FormFeedIndent
 
 ---------------------------------------------------------------------------
 (* The bounded input space, built by actions *)
@@ -539,15 +547,15 @@ Budget(st) == IF Len(st) <= 1 THEN MaxMods1 ELSE MaxMods2
 
 Set(st, md, tb, fin) ==
   /\ stmts' = st /\ mods' = md /\ tabs' = tb /\ final' = fin
-  /\ LET L == Layout(st, md, tb, fin) IN lay' = L /\ out' = DesignOut(st, fin, L)
+  /\ LET L == Layout(st, md, tb, fin) IN lay' = L /\ out' = DesignOut(st, tb, fin, L)
 
 Init == /\ stmts = <<>> /\ mods = {} /\ tabs = FALSE /\ final = TRUE
         /\ lay = [text |-> <<>>, offs |-> <<>>, lens |-> <<>>, leaves |-> <<>>, starts |-> <<0>>]
-        /\ out = [names |-> <<>>, lines |-> <<<<>>>>]
+        /\ out = [names |-> <<>>, lines |-> <<<<>>>>, modelled |-> TRUE]
 Fresh(t) == [tpl |-> t, rot |-> 0, eol |-> 1, ff |-> FALSE, pre |-> "none"]
 CanMod == stmts # <<>> /\ NMods(stmts, mods, tabs, final) < Budget(stmts)
 AddStmt(t) == /\ Len(stmts) < MaxStmts /\ NMods(stmts, mods, tabs, final) = 0
-              /\ (stmts = <<>> => t \in TplLo..TplHi)
+              /\ (IF stmts = <<>> THEN t \in TplLo..TplHi ELSE t \in SecondTpls)
               /\ Set(Append(stmts, Fresh(t)), mods, tabs, final)
 Rotate(i, r) == /\ CanMod /\ stmts[i].rot = 0 /\ Set([stmts EXCEPT ![i].rot = r], mods, tabs, final)
 SetEol(i, e) == /\ CanMod /\ stmts[i].eol = 1 /\ Set([stmts EXCEPT ![i].eol = e], mods, tabs, final)
@@ -589,16 +597,16 @@ RefToks == RefToksFrom(1)
 KnownDunderParam(r) == LeafInfo(r.g).pname /\ Len(TokText(r.g)) >= 2 /\ TokText(r.g)[1] = US /\ TokText(r.g)[2] = US
 T  == lay.text
 ST == lay.starts
-SplitLinesOK   == out.lines = RefLines(T, ST)
-NamesOK        == LET toks == RefToks IN ClBijection(toks, out.names) /\ ClIsDef(toks, out.names)
-NamesBijection == ClBijection(RefToks, out.names)
-IsDefOK        == ClIsDef(RefToks, out.names)
-TextAtPosStrict == \A i \in 1..Len(out.names) : ClTextAtPos(T, ST, out.names[i])
-TextAtPos      == \A i \in 1..Len(out.names) : KnownDunderParam(out.names[i]) \/ ClTextAtPos(T, ST, out.names[i])
-RangeEncloses  == \A i \in 1..Len(out.names) : KnownDunderParam(out.names[i]) \/ ClRange(T, ST, out.names[i])
-LineCodeOK     == \A i \in 1..Len(out.names) : ClLineCode(T, ST, out.names[i])
+SplitLinesOK   == out.modelled => out.lines = RefLines(T, ST)
+NamesOK        == out.modelled => LET toks == RefToks IN ClBijection(toks, out.names) /\ ClIsDef(toks, out.names)
+NamesBijection == out.modelled => ClBijection(RefToks, out.names)
+IsDefOK        == out.modelled => ClIsDef(RefToks, out.names)
+TextAtPosStrict == out.modelled => \A i \in 1..Len(out.names) : ClTextAtPos(T, ST, out.names[i])
+TextAtPos      == out.modelled => \A i \in 1..Len(out.names) : KnownDunderParam(out.names[i]) \/ ClTextAtPos(T, ST, out.names[i])
+RangeEncloses  == out.modelled => \A i \in 1..Len(out.names) : KnownDunderParam(out.names[i]) \/ ClRange(T, ST, out.names[i])
+LineCodeOK     == out.modelled => \A i \in 1..Len(out.names) : ClLineCode(T, ST, out.names[i])
 \* documented meaning of before/after (not part of the property text; kept apart)
-LineCodeCtxOK  == \A i \in 1..Len(out.names) :
+LineCodeCtxOK  == out.modelled => \A i \in 1..Len(out.names) :
                     LET r == out.names[i]  n == Len(ST)
                         lo == IF r.line > 1 THEN r.line - 1 ELSE 1
                         hi == IF r.line < n THEN r.line + 1 ELSE n
@@ -611,6 +619,6 @@ SumSeq(s) == IF s = <<>> THEN 0 ELSE (s[1] + 3 * SumSeq(Tail(s))) % 100003
 CaseNo == (SumSeq(lay.text) + 7 * Len(lay.text) + (IF tabs THEN 1 ELSE 0)) % 100003
 Emit == (stmts # <<>> /\ CaseNo % EmitMod = EmitRem) =>
           PrintT(<<"CASE", ToJson([stmts |-> stmts, mods |-> mods, tabs |-> tabs, final |-> final,
-                                   text |-> lay.text, names |-> out.names, toks |-> RefToks,
+                                   text |-> lay.text, names |-> out.names, toks |-> RefToks, modelled |-> out.modelled,
                                    nlines |-> Len(lay.starts)])>>)
 =============================================================================
